@@ -37,9 +37,15 @@ def literal_args(tp):
     return found
 
 
-def oracle(strings, extra, fw, maxlit):
+def build_samples(strings, extra, rep=0):
+    """one object per string; rep > 0 repeats the first `rep` strings after the others (the set stays the same,
+    the number of DUnion constructions that see overlapping literal sets does not)"""
+    return [{"f": s} for s in strings] + [{"f": e} for e in extra] + [{"f": s} for s in strings[:rep]]
+
+
+def oracle(strings, extra, fw, maxlit, rep=0):
     """-> (failure or None, code or None)"""
-    samples = [{"f": s} for s in strings] + [{"f": e} for e in extra]
+    samples = build_samples(strings, extra, rep)
     try:
         code, reg = pipeline.run(samples, fw=fw, max_literals=maxlit, rn=RN3)
     except Exception as e:  # noqa
@@ -95,18 +101,18 @@ def run(chk, build):
                     salt += 1
                     if tier == "quick" and (salt % 3) and not (n in (15, 16) or ml in (0, n, n + 1) or v in (19, 20)):
                         continue
-                    cases.append((string_set(n, v, salt % 7), extras[salt % len(extras)], fw, ml))
+                    cases.append((string_set(n, v, salt % 7), extras[salt % len(extras)], fw, ml, [0, 1, n // 2, n][salt % 4]))
     # corpus: D11 (fixed) — characters outside the BMP
-    cases.insert(0, (["\U0001F600", "é"], [], "pydantic", 10))
+    cases.insert(0, (["\U0001F600", "é"], [], "pydantic", 10, 0))
     eterms, emeta = [], []
     iterms, imeta = [], []
-    for strings, extra, fw, ml in cases:
-        why, code = oracle(strings, extra, fw, ml)
-        info = {"strings": strings, "extra": extra, "fw": fw, "max_literals": ml}
-        chk.count(key=(fw, ml, len(strings), max(map(len, strings)), repr(extra)), sample=info if len(chk.samples) < 3 else None)
+    for strings, extra, fw, ml, rep in cases:
+        why, code = oracle(strings, extra, fw, ml, rep)
+        info = {"strings": strings, "extra": extra, "fw": fw, "max_literals": ml, "repeat": rep}
+        chk.count(key=(fw, ml, len(strings), max(map(len, strings)), repr(extra), rep), sample=info if len(chk.samples) < 3 else None)
         if why:
             oracle_failed |= chk.fail("oracle", info, why)
-        samples = [{"f": s} for s in strings] + [{"f": e} for e in extra]
+        samples = build_samples(strings, extra, rep)
         # X-infer (the IR) and X-emit (the annotation bytes) on the same inputs
         if fw == "pydantic":
             res, err, _ = impl.run_generate(samples, RN3)
@@ -129,7 +135,8 @@ def finish(chk):
     return chk.finish(level="proof",
                       rule="boundary stream: string sets of 1..17 members (escape-heavy alphabet, one member of length 19/20/21) x "
                            "max-literals around the set size and the hard limits x 5 frameworks x other value kinds at the "
-                           "position; distinct = distinct (framework, limit, set size, longest string, extra values)")
+                           "position x repetition of 0 / 1 / half / all of the strings (overlapping literal sets); distinct = distinct "
+                           "(framework, limit, set size, longest string, extra values, repetition)")
 
 
 def replay(chk, path):
@@ -137,6 +144,6 @@ def replay(chk, path):
     if "strings" not in r:
         print("replay names a broken obligation / view:", r.get("broken"))
         return 1
-    why, code = oracle(r["strings"], r.get("extra", []), r["fw"], r["max_literals"])
+    why, code = oracle(r["strings"], r.get("extra", []), r["fw"], r["max_literals"], r.get("repeat", 0))
     print("REPLAY", "FAILS: " + why if why else "passes")
     return 1 if why else 0
